@@ -11,22 +11,22 @@ P = {
    text="Decides, for every path of ValidateEncodedResponse with validation enabled, where each decoded Response/Assertion came from: the element returned by a successful dsig Validate, or (unsigned root) a header-only decode with both assertion lists reset and appends only of freshly allocated, individually verified direct children; only ErrMissingSignature at the root continues; parseResponse screens the very bytes it parsed into a document created for that attempt; both traversal handlers (Assertion, EncryptedAssertion) demand a direct child of the processed root; the validation context is built per call over sp.IDPCertificateStore / sp.Clock; the header is decoded before any tree mutation. Holds for all inputs because it is a property of every control-flow path, not of sampled documents.",
    note="Not decided: correctness of dsig.Validate itself (contract, audited by shape in the thorough tier), parser differentials beyond the round-trip screen, ID-collision handling inside goxmldsig. " + TB, ref="DESIGN.md §3 C01"),
  "C02": dict(tech="who-may-construct / receiver scans + path-sensitive error-discipline analysis",
-   text="Every validation context is built in validationContext() over sp.IDPCertificateStore with ctx.Clock = sp.Clock, every Validate receiver comes from it, and at all four verify sites the only non-fatal error is ErrMissingSignature at a root site, whose continuation leaves the trust flag constant false.",
+   text="Every validation context is built in validationContext() over sp.IDPCertificateStore with ctx.Clock = sp.Clock, every Validate receiver comes from it, and at all four verify sites the only non-fatal error is ErrMissingSignature at a root site, whose continuation leaves the trust flag constant false. The trust store is read-only for the library (no store / append / mutating call reaches sp.IDPCertificateStore or what it hands out).",
    note="Not decided: x509 equality / signature mathematics and verifyCertificate's behaviour (dependency; shape-audited in thorough). " + TB, ref="DESIGN.md §3 C02"),
  "C03": dict(tech="required-fact table over all SSA paths (guard inventory) with loop generic-iteration",
-   text="Every accepting path of Validate carries each of the 17 profile checks plus the expiry comparison; per-assertion checks hold at every completed iteration of a loop over the whole Assertions slice; each rejection returns the typed error naming the element; Validate(obj)==nil is the last event on every object ValidateEncodedResponse returns; each assertion Validate inspects was decoded into its own fresh target.",
+   text="Every accepting path of Validate carries each of the 17 profile checks plus the expiry comparison; per-assertion checks hold at every completed iteration of a loop over the whole Assertions slice; each rejection returns the typed error naming the element; Validate(obj)==nil is the last event on every object ValidateEncodedResponse returns; each assertion Validate inspects was decoded into its own fresh target. The configuration the checks compare against (IdP issuer, ACS URL, clock, audience) is written by no library function.",
    note="Not decided: that encoding/xml fills the structs faithfully (C08 / dependency). " + TB, ref="DESIGN.md §3 C03"),
  "C04": dict(tech="typestate of trust-flag fields: who-may-write scan, path-sensitive flag<=>provenance, struct-tag table",
    text="The five trust indicators are written only by the validators; on every accepting path the returned flag is a compile-time constant that is true exactly when the object was decoded from the element returned by the successful check of the parsed root with validation on; xml:\"-\" keeps input from setting them; the summary flag mirrors the Response flag.",
    note="Field-for-field equality with the signed element follows from C01 provenance + the Validate contract, not re-proved here. " + TB, ref="DESIGN.md §3 C04"),
  "C05": dict(tech="comparison truth tables over the 3 orderings of (clock, bound), extracted from path facts",
-   text="For each time decision the guard is evaluated over now<b, now=b, now>b on all paths: expiry rejects on = and >, InvalidTime from NotBefore on < only and from NotOnOrAfter on = and >; operands are sp.Clock.Now() and time.Parse(RFC3339, field) unmodified; missing/unparsable bounds are typed errors; no wall-clock call exists in library scope (positive control).",
+   text="For each time decision the guard is evaluated over now<b, now=b, now>b on all paths: expiry rejects on = and >, InvalidTime from NotBefore on < only and from NotOnOrAfter on = and >; operands are sp.Clock.Now() and time.Parse(RFC3339, field) unmodified; missing/unparsable bounds are typed errors; no wall-clock call exists in library scope (positive control). Every verified assertion is decoded into a fresh object, so each assertion's bounds are its own.",
    note="Not decided: time.Parse's own handling of offsets and fractions (std contract). " + TB, ref="DESIGN.md §3 C05"),
  "C06": dict(tech="loop-to-quantifier extraction on SSA paths; exact-comparison and accumulate-loop rules",
-   text="NotInAudience is stored exactly on generic outer iterations whose inner loop over that restriction's Audiences is exhausted without an exact == match, never with zero restrictions; OneTimeUse and ProxyRestriction mirror presence, Count and the audience list in order.",
+   text="NotInAudience is stored exactly on generic outer iterations whose inner loop over that restriction's Audiences is exhausted without an exact == match, never with zero restrictions; OneTimeUse and ProxyRestriction mirror presence, Count and the audience list in order. Every verified assertion is decoded into a fresh object; no allocation while computing the warnings is sized by a signed value.",
    note="String equality semantics are Go's; nothing else assumed beyond the trusted base. " + TB, ref="DESIGN.md §3 C06"),
  "C07": dict(tech="value-flow and event-order analysis on SSA paths; truth tables for the certificate window",
-   text="Decrypted plaintext only re-enters the tree (parseResponse -> Root -> AddChild on the processed element); decryption precedes the verifying traversal over the same root; the EncryptedAssertion handler demands a direct child and the whole-tree traversal runs before every successful return; every path to an RSA unwrap has the recipient-certificate guard on the decoded EncryptedKey struct; getDecryptCert validates the returned certificate's leaf with the closed window on the SP clock on every accepting path and returns a certificate built in that call (no memoised value).",
+   text="Decrypted plaintext only re-enters the tree (parseResponse -> Root -> AddChild on the processed element); decryption precedes the verifying traversal over the same root; the EncryptedAssertion handler demands a direct child and the whole-tree traversal runs before every successful return; every path to an RSA unwrap has the recipient-certificate guard on the decoded EncryptedKey struct; getDecryptCert validates the returned certificate's leaf with the closed window on the SP clock on every accepting path and returns a certificate built in that call (no memoised value). The xmlenc fields the decrypting code reads decode from the element paths it assumes, matched by local name without namespace restriction (schema table).",
    note="Not decided: confidentiality / malleability of CBC, RSA mathematics. " + TB, ref="DESIGN.md §3 C07"),
  "C09": dict(tech="per-instruction panic obligations (bounds via linear path facts, nil-ness, preconditions) over the call-graph cone",
    text="For every module function reachable from the 6 inbound entry points and 3 decrypt routines, every index, slice, pointer dereference, interface call, map update, division, explicit panic and precondition-bearing std call is discharged on every path; every return of the entry points yields exactly one of (non-nil result, non-nil error).",
@@ -38,28 +38,28 @@ P = {
    text="STRUCTURAL PART ONLY: every advertised / exported algorithm constant has a decrypting case; the key that decrypts and the certificate reported/published pick the same source in all 12 valid field/setter configurations; nonce/IV split and padding removal have the required shape; no rejection outside the safety whitelist on the symmetric layer; the symmetric key is the whole RSA plaintext of base64(CipherValue) obtained with the primitive the transport identifier names; every advertised algorithm's cipher family matches its identifier.",
    note="Explicitly NOT decided: byte-exact round trip for every plaintext length and algorithm pairing, OAEP/MGF semantics (cryptographic run-time behaviour). The checked clauses are necessary conditions: breaking one breaks the round trip for some input/configuration. " + TB, ref="DESIGN.md §3 C11"),
  "C12": dict(tech="who-may-call scan + value-flow / bounds analysis of maybeDeflate on SSA paths",
-   text="The only decompressor constructor in the library is in maybeDeflate, its reader flows only into io.LimitReader(r, max+1) (max = parameter, 5 MiB when 0), only the limited reader is read, the second decode is reached only with len(out) <= max proven from path facts, both attempts call the same decoder, and every entry point routes through it with the configured / default limit.",
+   text="The only decompressor constructor in the library is in maybeDeflate, its reader flows only into io.LimitReader(r, max+1) (max = parameter, 5 MiB when 0), only the limited reader is read, the second decode is reached only with len(out) <= max proven from path facts, both attempts call the same decoder, and every entry point routes through it with the configured / default limit. DecryptBytes returns exactly the opened / unpadded plaintext, so a compressed plaintext reaches the inflater byte for byte.",
    note="Not decided: transient allocator slack of io.ReadAll ('about the limit'). " + TB, ref="DESIGN.md §3 C12"),
  "C19": dict(tech="wiring table on SSA value flow, decision-table agreement, dimensional (unit) rule for durations",
-   text="Both metadata functions wire entity ID, endpoints, booleans and base64(StdEncoding) certificates from the named configuration sources; published signing/encryption keys equal the keys really used in all 12 valid configurations; ValidUntil = sp.Clock.Now().UTC().Add(d) with d a duration (hours must be multiplied by time.Hour), default 7 days.",
+   text="Both metadata functions wire entity ID, endpoints, booleans and base64(StdEncoding) certificates from the named configuration sources; published signing/encryption keys equal the keys really used in all 12 valid configurations; ValidUntil = sp.Clock.Now().UTC().Add(d) with d a duration (hours must be multiplied by time.Hour), default 7 days. The configuration setters store their argument into their own override field and nothing else.",
    note="Not decided: XML round trip of the descriptor (encoding/xml behaviour). " + TB, ref="DESIGN.md §3 C19"),
  "C08": dict(tech="struct-tag schema table, value-flow wiring of the summary, path-shape rules for the accessors, shared provenance/freshness rules",
-   text="STRUCTURAL PART ONLY: every field the property enumerates decodes from the SAML-schema element/attribute name, namespace and Go type; RetrieveAssertionInfo wires NameID, every attribute in order, the AuthnStatement fields and the whole assertion list from the validated response; Get/GetSize/GetAll have the first / count / all-in-order shape with empty results for nil map and absent key; decode targets are fresh and decoded from verified elements; decoded objects are never written afterwards; once the root signature verified no further verification narrows acceptance.",
+   text="STRUCTURAL PART ONLY: every field the property enumerates decodes from the SAML-schema element/attribute name, namespace and Go type; RetrieveAssertionInfo wires NameID, every attribute in order, the AuthnStatement fields and the whole assertion list from the validated response; Get/GetSize/GetAll have the first / count / all-in-order shape with empty results for nil map and absent key; decode targets are fresh and decoded from verified elements; decoded objects are never written afterwards; once the root signature verified no further verification narrows acceptance. etree's read / write settings are untouched in library scope (positive control).",
    note="Explicitly NOT decided: that every conforming serialisation is accepted and that text survives comments / CDATA / character references / canonicalisation (behaviour of etree, encoding/xml, goxmldsig over unbounded inputs). The checked clauses are necessary conditions. " + TB, ref="DESIGN.md §3 C08"),
  "C13": dict(tech="expression-shape and sibling-agreement rules on SSA paths, lock-ordered event rules, who-may-call scans, decision-table agreement",
-   text="STRUCTURAL PART ONLY: each Sign* puts ConstructSignature(el, enveloped=true) from sp.SigningContext() at child index 1 of a copy keeping every other child once and in order (Issuer is created first, unconditionally, by every builder); builders use only the escaping tree API (no CDATA / raw sinks); SigningContext applies algorithm and canonicalizer to the new context under the write lock and embeds the signer's own certificate; all signing goes through it; signer, reported certificate and both metadata signing descriptors pick the same key source in all 12 valid configurations.",
+   text="STRUCTURAL PART ONLY: each Sign* puts ConstructSignature(el, enveloped=true) from sp.SigningContext() at child index 1 of a copy keeping every other child once and in order (Issuer is created first, unconditionally, by every builder); builders use only the escaping tree API (no CDATA / raw sinks); SigningContext applies algorithm and canonicalizer to the new context under the write lock and embeds the signer's own certificate; all signing goes through it; signer, reported certificate and both metadata signing descriptors pick the same key source in all 12 valid configurations. The configuration setters store their argument into their own override field and nothing else.",
    note="Explicitly NOT decided: that the produced signature verifies after serialisation and re-parse (c14n + RSA at run time). " + TB, ref="DESIGN.md §3 C13"),
  "C14": dict(tech="event-order and value-flow rules on SSA paths of the two redirect builders",
-   text="STRUCTURAL PART ONLY: raw DEFLATE over a fresh buffer receives exactly the document, Close() is checked before the buffer is read, base64.StdEncoding everywhere; parameters are added to the endpoint's own Query() and RawQuery is exactly qs.Encode(); RelayState is added iff non-empty; the signing string is the QueryEscape/Encode'd pairs in the order SAMLRequest,[RelayState,]SigAlg over the values sent, signed by the same context whose identifier is SigAlg.",
+   text="STRUCTURAL PART ONLY: raw DEFLATE over a fresh buffer receives exactly the document, Close() is checked before the buffer is read, base64.StdEncoding everywhere; parameters are added to the endpoint's own Query() and RawQuery is exactly qs.Encode(); RelayState is added iff non-empty; the signing string is the QueryEscape/Encode'd pairs in the order SAMLRequest,[RelayState,]SigAlg over the values sent, signed by the same context whose identifier is SigAlg. The configuration setters store their argument into their own override field and nothing else.",
    note="Explicitly NOT decided: inflate∘deflate, base64 and percent-coding round trips, that the signature verifies. Assumes the configured IdP endpoint does not itself carry SAMLRequest/RelayState/SigAlg/Signature parameters. " + TB, ref="DESIGN.md §3 C14"),
  "C15": dict(tech="document model reconstructed from the etree API event trace per SSA path; wiring and order tables",
-   text="Injection-safety by construction: every element/attribute name is a compile-time constant and no raw sink is used; each attribute/child of the three messages is emitted exactly under its condition from exactly the named configuration field or argument; IssueInstant is Format(Z-literal layout) of sp.Clock.Now().UTC(); children follow the schema sequence with Issuer first; the document root is the built element or Sign*(it) exactly under the signing condition, and Sign* keeps every built child once and in order.",
+   text="Injection-safety by construction: every element/attribute name is a compile-time constant and no raw sink is used; each attribute/child of the three messages is emitted exactly under its condition from exactly the named configuration field or argument; IssueInstant is Format(Z-literal layout) of sp.Clock.Now().UTC(); children follow the schema sequence with Issuer first; the document root is the built element or Sign*(it) exactly under the signing condition, and Sign* keeps every built child once and in order. The configuration fields the builders read are written by no library function.",
    note="Not decided: well-formedness of etree's serialiser, characters outside the XML repertoire. " + TB, ref="DESIGN.md §3 C15"),
  "C16": dict(tech="package-identity scan, constant-template parsing at analysis time (text/template/parse), value-flow wiring",
-   text="The three POST bodies are produced solely by html/template Execute into the returned buffer from a compile-time-constant template with only plain string field actions inside quoted attribute values, one POST form with action={{.URL}}, the base64 document field and a RelayState input exactly on the non-empty path; fields are wired from the flow's endpoint, base64.StdEncoding(document) and relayState.",
+   text="The three POST bodies are produced solely by html/template Execute into the returned buffer from a compile-time-constant template with only plain string field actions inside quoted attribute values, one POST form with action={{.URL}}, the base64 document field and a RelayState input exactly on the non-empty path; fields are wired from the flow's endpoint, base64.StdEncoding(document) and relayState. The endpoint URLs are written by no library function.",
    note="Not decided: html/template's escaper itself. " + TB, ref="DESIGN.md §3 C16"),
  "C17": dict(tech="write-effect scan over the call-graph cone of all public operations, path-sensitive lockset on SigningContext, copylocks-style scan",
-   text="After configuration the only provider state written by any public operation is sp.signingContext (and the context object), only inside SigningContext, loads under R/W and stores/mutations under W with every acquire released; no package-level mutable state; validators return fresh allocations; the provider is never copied by value; no exported operation writes through a pointer-carrying argument (documents, elements, decoded messages) on any path.",
+   text="After configuration the only provider state written by any public operation is sp.signingContext (and the context object), only inside SigningContext, loads under R/W and stores/mutations under W with every acquire released; no package-level mutable state; validators return fresh allocations; the provider is never copied by value; no exported operation writes through a pointer-carrying argument (documents, elements, decoded messages) on any path. Value-flow counterpart: on every path of every exported provider method no store, mutating or unmodelled external call receives memory derived from the provider (configured keys and certificates included); provider fields the library writes are only touched under signingContextMu in functions analysed by the lockset rule.",
    note="Not decided: data races inside dependencies or user-supplied key/certificate stores; equality of concurrent and sequential results as an observed fact (implied for module code by the effect rules). " + TB, ref="DESIGN.md §3 C17"),
  "C18": dict(tech="value-flow rule for ID attributes, SSA rules on NewV4, exhaustive evaluation of the byte transforms over 256 inputs",
    text="Every ID attribute is a constant NCName-start prefix + String() of a uuid.NewV4() called in the same builder activation, held in attribute storage the element owns; NewV4 fills all 16 bytes of a fresh array from crypto/rand with the error fatal; version/variant transforms are correct for all 256 byte values and no other byte is overwritten; String() is the 8-4-4-4-12 lower-case hex layout.",
